@@ -50,3 +50,31 @@ Proof.
   intros a s r tmo x' H E. destruct (resume_post a s r tmo x' H E) as [P _]. split; [exact P|apply post_inv_wellformed; exact P].
 Qed.
 Print Assumptions c01_invariant_preserved.
+
+(* Clause 5, second half ("every event a run records during a sprint ... appears, in the same relative
+   order, in that sprint's event list"), in the stronger two-way form: after a call that returned
+   without error, each run's event list is its list before the call followed by exactly those events of
+   the sprint that this run logged, in the sprint's order; and every event of the sprint was logged by
+   a run of the session.  ([logged evs ri] = the events of [evs] owned by run ri, in order.) *)
+From Verif Require Import proofs.EngineEvents.
+
+Theorem c01_events_after_start : forall (a : assets) (t : trigger) (flow : id) (x' : st),
+  start a t flow = ROk x' ->
+  (forall ri, events_of (session_ x') ri = logged (sp_events (sprint_ x')) ri) /\
+  (forall oe, In oe (sp_events (sprint_ x')) -> exists ri, fst oe = Some ri /\ (ri < length (s_runs (session_ x')))%nat).
+Proof.
+  intros a t flow x' H. destruct (start_accounts a t flow x' H) as [F E]. split.
+  - intros ri. rewrite E. unfold events_of; simpl. destruct ri; reflexivity.
+  - intros oe Hin. rewrite Forall_forall in F. destruct (F oe Hin) as [K _]. exact K.
+Qed.
+Print Assumptions c01_events_after_start.
+
+Theorem c01_events_after_resume : forall (a : assets) (s : session) (r : resume) (tmo : text) (x' : st),
+  reachable s -> resume_session a s r tmo = Resumed (ROk x') ->
+  (forall ri, events_of (session_ x') ri = events_of s ri ++ logged (sp_events (sprint_ x')) ri) /\
+  (forall oe, In oe (sp_events (sprint_ x')) -> exists ri, fst oe = Some ri /\ (ri < length (s_runs (session_ x')))%nat).
+Proof.
+  intros a s r tmo x' Hr H. destruct (reachable_resume_accounts a s r tmo x' Hr H) as [F E]. split; [exact E|].
+  intros oe Hin. rewrite Forall_forall in F. destruct (F oe Hin) as [K _]. exact K.
+Qed.
+Print Assumptions c01_events_after_resume.
